@@ -292,6 +292,8 @@ def run_live(sh, res):
             root = os.path.join(base, 'l%d' % i)
             os.makedirs(root)
             for restart in range(3):
+                # wall time does not run backwards across a restart of the agent (World() resets the virtual clock)
+                env.CLOCK_OFFSET[0] += reactor.seconds() + 5.0
                 try:
                     w = World(handler='default', msg_opts={'write_dir': root + '/', 'write_disk': True}, max_file_size=rng.choice([10 ** 9, 1500]),
                               time_opts={'idle_hold_time': 2})
